@@ -18,6 +18,7 @@ func (c *context) PreParseGo() bool {
 	for _, dirEntry := range dirEntries {
 		if !dirEntry.IsDir() &&
 			filepath.Ext(dirEntry.Name()) == ".go" &&
+			dirEntry.Name() != baseGenGo &&
 			dirEntry.Name() != lexerGenGo &&
 			dirEntry.Name() != parserGenGo {
 			oneSourceName = filepath.Join(c.Dir, dirEntry.Name())
